@@ -336,6 +336,7 @@ Record drule := mkD {
   dblk : N;     (* the WORKSPACE / ALTER WORKSPACE block of a VSQL source the rule is written in; rules
                    passed to the builder API one by one have a block each *)
   dall : bool;  (* GRANT ALL / REVOKE ALL: no operation list *)
+  dscr : list N; (* what the caller wrote into ITS field slice after the declaration ([] = left alone) *)
   drl : rule }.
 
 (* the VSQL compiler (grantsAndRevokes): per block all GRANTs, then all REVOKEs - when the translator
@@ -358,11 +359,16 @@ Definition compiled_order : list drule -> list drule := compiled_order_gen parse
 
 (* NewRuleAll: the operations of the first type, in name order, among the types the workspace sees
    that the filter matches *)
-Definition eff_rule (S : schema) (d : drule) : rule :=
-  if dall d
-  then mkRule (match find (fmatch (rflt (drl d))) (vis_types S (dws d)) with Some t => taclops t | None => [] end)
-              (rallow (drl d)) (rflt (drl d)) (rfields (drl d)) (rprin (drl d))
-  else drl d.
+(* `clones` = the rule keeps its own copy of the field list (translator: acl_rule_clones_fields);
+   otherwise it shares the caller's slice and shows whatever the caller wrote there later *)
+Definition eff_fields (clones : bool) (d : drule) : list N :=
+  if clones || is_nil (dscr d) then rfields (drl d) else dscr d.
+Definition eff_rule_gen (clones : bool) (S : schema) (d : drule) : rule :=
+  mkRule (if dall d
+          then match find (fmatch (rflt (drl d))) (vis_types S (dws d)) with Some t => taclops t | None => [] end
+          else rops (drl d))
+         (rallow (drl d)) (rflt (drl d)) (eff_fields clones d) (rprin (drl d)).
+Definition eff_rule : schema -> drule -> rule := eff_rule_gen acl_rule_clones_fields.
 (* NewRuleAll as repaired (C13-F5) accepts an ALL rule only when every type its filter matches, among
    those the workspace sees, has the same ACL operations; `uniform_required` = the shape found in the source *)
 Definition uniform (S : schema) (d : drule) : bool :=
